@@ -15,7 +15,7 @@ package rotate
 
 //@ func Key
 //@   requires caInv(live, durPrimary, durCerts)
-//@   modifies live, destroyed, durPrimary, durCerts, pendPrimary, pendPrimarySet, pendCerts, caCalls, caPrimary, signerCalls, sigKey, sigDigest, lastSig, bundleKeyArg, lastBundle
+//@   modifies live, destroyed, durPrimary, durCerts, pendPrimary, pendPrimarySet, pendCerts, caCalls, caPrimary, signerCalls, sigKey, sigDigest, lastSig, bundleKeyArg, lastBundle, lastBundleOK
 //@   sweep[C10] nilinvoke nilcall
 //@   ensures[C10] caInv(live, durPrimary, durCerts)
 //@   ensures[C10] err == nil ==> durPrimary == result0 && live[result0] && durCerts[result0]
